@@ -282,6 +282,9 @@ func (wr *Writer) tightMap(rv reflect.Value, si *sinfo) {
 	comma := false
 	for _, kv := range keys {
 		rm := rv.MapIndex(kv)
+		if wr.OmitNil && rm.Kind() == reflect.Interface && rm.IsNil() {
+			continue
+		}
 		if rm.Kind() == reflect.Ptr {
 			if rm.IsNil() {
 				if wr.OmitNil {
